@@ -375,12 +375,16 @@ class Text(Input):
                         verif.util.error("Incorrect number of columns (expecting %d) in row '%s'"
                               % (len(header), rowstr.strip()))
                     if "date" in indices:
-                        date = int(self._clean(row[indices["date"]]))
-                        unixtime = verif.util.date_to_unixtime(date)
-                        add = 0
-                        if "hour" in indices:
-                            add = (self._clean(row[indices["hour"]]))*3600
-                        unixtime = unixtime + add
+                        date = self._clean(row[indices["date"]])
+                        if np.isnan(date):
+                            # A missing date is treated like a missing unixtime: the row has no valid time
+                            unixtime = np.nan
+                        else:
+                            unixtime = verif.util.date_to_unixtime(int(date))
+                            add = 0
+                            if "hour" in indices:
+                                add = (self._clean(row[indices["hour"]]))*3600
+                            unixtime = unixtime + add
                     elif "unixtime" in indices:
                         unixtime = self._clean(row[indices["unixtime"]])
                     self._times.add(unixtime)
